@@ -289,8 +289,9 @@ inductive EStep
   | andModify (add : Nat)
   /-- `and_replace_entry_with(|_, v| if keep { Some(v + add) } else { None })` -/
   | andReplace (keep : Bool) (add : Nat)
-  /-- `Entry::insert(v)` / `RawEntryMut::insert(k, v)`; the handle returned is read with `get()` -/
-  | insert (kid v vid : Nat)
+  /-- `Entry::insert(v)` / `RawEntryMut::insert(k, v)`; the occupied handle returned is then
+      written through (`*get_mut() += add`) and read -/
+  | insert (kid v vid add : Nat)
   /-- `or_insert(v)` (`lzy = false`) or `or_insert_with*` / `or_default` (`lzy = true`: the value
       object only exists if the entry was vacant); the reference returned gets `+= add` -/
   | orInsert (lzy : Bool) (kid v vid add : Nat)
@@ -383,15 +384,15 @@ def chainStep (c : Cfg) (raw : Bool) (k : Nat) (m : Map) (st : ES) (acc : ChainA
         let acc' := { acc with cost := acc.cost + { dropped := [e.vid] ++ optIds spare ++ (if raw then [e.kid] else []) } }
         .ok (m', .vac (if raw then none else some e.kid), acc')
   | .andReplace _ _, .vac key => .ok (m, .vac key, acc)
-  | .insert kid v vid, .occ loc spare =>
+  | .insert kid v vid add, .occ loc spare =>
     match valueAt m loc with
     | none => bad
     | some e =>
       -- old value dropped inside the call; raw API: the key argument is dropped too
       let acc' := { acc with cost := acc.cost + { dropped := [e.vid] ++ (if raw then [kid] else []) },
-                             seen := some (v, vid) }
-      .ok (setValAt m loc v vid, .occ loc spare, acc')
-  | .insert kid v vid, .vac key => vacIns key raw kid v vid 0 acc true
+                             seen := some (v + add, vid) }
+      .ok (setValAt m loc (v + add) vid, .occ loc spare, acc')
+  | .insert kid v vid add, .vac key => vacIns key raw kid v vid add acc true
   | .orInsert lzy kid v vid add, .occ loc spare =>
     match valueAt m loc with
     | none => bad
